@@ -1,6 +1,8 @@
 import os
+import collections
 import itertools
 from dataflows import Flow
+from ..helpers.resource_matcher import ResourceMatcher
 from .stream import stream
 from .unstream import unstream
 
@@ -12,6 +14,26 @@ def _notify_checkpoint_saved(checkpoint_name):
         for rows in package:
             yield (row for row in rows)
         print(f'checkpoint saved: {checkpoint_name}')
+
+    return step
+
+
+def _keep_resources(resources):
+
+    def step(package):
+        matcher = ResourceMatcher(resources, package.pkg)
+        descriptor = package.pkg.descriptor
+        descriptor['resources'] = [
+            resource for resource in descriptor['resources']
+            if matcher.match(resource['name'])
+        ]
+        package.pkg.commit()
+        yield package.pkg
+        for rows in package:
+            if matcher.match(rows.res.name):
+                yield rows
+            else:
+                collections.deque(rows, maxlen=0)
 
     return step
 
@@ -53,8 +75,11 @@ class checkpoint(Flow):
                     'checkpoint {} does not exist and there are no steps to create it from'.format(self.checkpoint_path))
             self.chain = chain
             print('saving checkpoint to: {}'.format(self.checkpoint_path))
-            return itertools.chain(self.chain, (stream(self.filename),
-                                                _notify_checkpoint_saved(self.checkpoint_name)))
+            # only the selected resources are checkpointed (as `load` would load only them)
+            selection = (_keep_resources(self.resources),) if self.resources is not None else ()
+            return itertools.chain(self.chain, selection,
+                                   (stream(self.filename),
+                                    _notify_checkpoint_saved(self.checkpoint_name)))
 
     def handle_flow_checkpoint(self, parent_chain):
         # rebuilt from the checkpoint's own steps every time the flow is chained: the same
